@@ -74,9 +74,15 @@ theorem blob_prevents_manufacture (s : St) (b : Bytes) (h : s.cache 1 = .blob b)
 theorem storage_decides (s : St) (h : s.cache 1 = .none) : willManufacture s = (s.store 1).isNone := by
   simp [willManufacture, h]
 
-/-- a successful MainInit consumes the cached blobs -/
-theorem mainInit_consumes (s : St) (st : Nat) : (mainInit s true).cache st = .none := by
-  simp [mainInit, clearCache]
+/-- a successful MainInit consumes the cached permanent and volatile blobs; a cached save-state blob stays (a TPM 1.2 reads it
+    at TPM_Startup(ST_STATE)) -/
+theorem mainInit_consumes (s : St) (st : Nat) (h : st = 1 ∨ st = 2) : (mainInit s true).cache st = .none := by
+  simp [mainInit, consumeStartBlobs, h]
+theorem mainInit_keeps_saveState (s : St) (ok : Bool) : (mainInit s ok).cache 4 = s.cache 4 := by
+  cases ok <;> simp [mainInit, consumeStartBlobs]
+/-- the first TPM_Startup of a TPM 1.2 ends the life of a cached save-state blob -/
+theorem startup_drops_saveState (s : St) (h : s.choice = .v12) : (startupDone s).cache 4 = .none := by
+  simp [startupDone, h, setCache]
 
 /-! ### SetBufferSize -/
 
